@@ -297,7 +297,8 @@ def c15_d(ctx: Ctx):
         if p not in used:
             out.append(ctx.viol(R, sj, sj.node, f"sync_jobs accepts '{p}' but never reads it", construct=k))
         elif p in sjw.params and p not in ("src", "dst"):
-            okc = jw_calls and all(any(kw.arg == p and p in names_in(kw.value) for kw in c.keywords) for c in jw_calls)
+            dn = common.derived_names(sj, p)
+            okc = jw_calls and all(any(kw.arg == p and (dn & names_in(kw.value)) for kw in c.keywords) for c in jw_calls)
             if okc:
                 out.append(ctx.ok(R, sj, jw_calls[0], f"option '{p}' is passed to the file walk", construct=k))
             else:
